@@ -486,4 +486,18 @@ Section VMScalar.
         replace (length pre + (length cc + 2 + length ct + 2 + length cf)) with (length P + (length ct + 4) + length cf) by lia.
         reflexivity.
   Qed.
+  (* the shape of the statement "every expression adds exactly one value" *)
+  Corollary scalar_pushes_one : forall e base pre post st,
+    instr = pre ++ fst (F.cexp base e) ++ post ->
+    (forall i k, nth_error (snd (F.cexp base e)) i = Some k -> nth (base + i) (code_consts c) (KInt 0) = k) ->
+    below + length st + F.need e <= MAXSTACK ->
+    exists k, forall f,
+      (exists v, run (k + f) (length pre) st = run f (length pre + length (fst (F.cexp base e))) (v :: st))
+      \/ (exists x, run (k + f) (length pre) st = (RErr x s, defers)).
+  Proof.
+    intros e base pre post st Hi Hk Hn.
+    destruct (vm_scalar e base pre post st Hi Hk Hn) as [k Hr].
+    exists k. intros f. specialize (Hr f). unfold outcome_of in Hr.
+    destruct (F.sev e) as [v|x]; [left; exists (inj v)|right; exists (cls x)]; exact Hr.
+  Qed.
 End VMScalar.
